@@ -386,13 +386,34 @@ func (s *Store[H]) DeleteRange(ctx context.Context, from, to uint64) error {
 					deleteErr,
 				)
 			}
-			if err := s.wipe(ctx); err != nil {
+			// drop the pointers in step with the flush loop: headers appended while the range was
+			// being deleted are written out first, and if one of them sits at 'to' now the store is
+			// not empty after all - that header becomes the tail as in any tail-side deletion
+			var (
+				wiped   bool
+				wipeErr error
+			)
+			// (every header is deleted by now: this last step is not given up for the caller's deadline,
+			// or the pointers would be left naming deleted headers)
+			wipeCtx := context.WithoutCancel(ctx)
+			err = s.syncThen(wipeCtx, func() {
+				if _, err := s.getByHeight(wipeCtx, to); err == nil {
+					return
+				}
+				wiped = true
+				wipeErr = s.wipe(wipeCtx)
+			})
+			if err != nil {
 				return fmt.Errorf("header/store: wipe: %w", err)
 			}
-			log.Info("header/store: wiped store")
-			return nil
-		}
-		if err != nil {
+			if wipeErr != nil {
+				return fmt.Errorf("header/store: wipe: %w", wipeErr)
+			}
+			if wiped {
+				log.Info("header/store: wiped store")
+				return nil
+			}
+		} else if err != nil {
 			return fmt.Errorf("header/store: checking header at %d: %w", to, err)
 		}
 		// Header exists at 'to', proceed with normal deletion
